@@ -26,6 +26,11 @@ F(r) ==
   \cup (IF r.gout = "ok" /\ r.cout = "fails" THEN mk("does-not-compile") ELSE {})
   \cup (IF r.gout = "ok" /\ r.cout = "bare-leaf" THEN mk("bare-leaf") ELSE {})
   \cup (IF r.gout = "ok" /\ ~OnlyGivenVars(r.cfg, r.tree) THEN mk("unknown-variable") ELSE {})
+  \* the values the generator works with are the values of the map it was given (as it is when the option is applied)
+  \cup (IF \E k \in 1..Len(r.cfg.nums \o r.cfg.bools) :
+             LET e == (r.cfg.nums \o r.cfg.bools)[k] IN
+             ~\E j \in 1..Len(r.given) : r.given[j].name = e.name /\ VEq(r.given[j].val, e.val)
+        THEN mk("generator-uses-other-values-than-it-was-given") ELSE {})
   \cup (IF Judgeable(r) /\ ~ReportsTruth(r.cfg, r.tree, r.res) THEN mk("reported-result-wrong") ELSE {})
   \cup (IF Judgeable(r) /\ VarsOf(r.tree) \cap DneNames(r.cfg) = {} /\ ~Ok(Den(r.tree, Env(r.cfg))) THEN mk("expression-fails") ELSE {})
   \cup (IF r.gout = "ok" /\ r.cout = "ok" /\ ~(r.eval.t \in {"b", "i", "d", "w"}) THEN mk("evaluation-fails") ELSE {})
